@@ -37,7 +37,7 @@ theorem infoRowsList_eq (w : World) (j : Nat) (l : List Entry) (acc : Int) :
     by_cases hd : w.dead.contains x.c.owner = true
     · simp only [hd, if_true, Bool.not_true, Bool.false_eq_true, if_false]
       exact ih _
-    · simp only [Bool.not_eq_true] at hd
+    · simp only [hd, Bool.false_eq_true, if_false, Bool.not_eq_true] at *
       simp only [hd, Bool.not_false, if_true, List.map_cons, ih]
 
 /-- multiset comparison done by the oracle succeeds on permutations -/
